@@ -11,6 +11,15 @@ pub enum SyntaxError {
     UnclosedTag,
 }
 
+/// hand transcription of src/name.rs NamespaceError
+pub enum NamespaceError {
+    UnknownPrefix(Vec<u8>),
+    InvalidXmlPrefixBind(Vec<u8>),
+    InvalidXmlnsPrefixBind(Vec<u8>),
+    InvalidPrefixForXml(Vec<u8>),
+    InvalidPrefixForXmlns(Vec<u8>),
+}
+
 /// A-size (trusted): a Rust slice never has more than isize::MAX elements.
 pub axiom fn axiom_slice_len<T>(s: &[T])
     ensures s@.len() <= usize::MAX;
